@@ -43,7 +43,7 @@ var c02Modes = []c03Mode{
 var c02Thresholds = []int{0, 1, 64, 512, 5000, 100000}
 
 type outOp struct {
-	Kind   string // write | writer | ping | wping (Writer; Write(Chunks[0] bytes); Ping; Write(rest); Close) | burst
+	Kind   string // write | writer | ping | wping (Writer; Write(Chunks[0] bytes); Ping; Write(rest); Close) | burst | wstall / wfail (Write held up after Chunks[0] bytes; wfail: the transport is lost then)
 	Text   bool
 	CKind  int
 	Seed   uint64
@@ -62,7 +62,7 @@ func genOutOps(rt *rapid.T, maxOps, maxLen int, pings bool) []outOp {
 	ops := make([]outOp, n)
 	for i := range ops {
 		o := &ops[i]
-		k := rapid.IntRange(0, 12).Draw(rt, "opKind")
+		k := rapid.IntRange(0, 13).Draw(rt, "opKind")
 		switch {
 		case k < 4:
 			o.Kind = "write"
@@ -78,8 +78,15 @@ func genOutOps(rt *rapid.T, maxOps, maxLen int, pings bool) []outOp {
 			if !pings {
 				o.Kind = "writer"
 			}
-		default:
+		case k < 13:
 			o.Kind = "burst"
+			if !pings {
+				o.Kind = "write"
+			}
+		default:
+			// a Write held up after StallAt bytes: the caller's buffer is looked at while
+			// the call is blocked; the last op of a program may then lose its transport
+			o.Kind = "wstall"
 			if !pings {
 				o.Kind = "write"
 			}
@@ -99,6 +106,16 @@ func genOutOps(rt *rapid.T, maxOps, maxLen int, pings bool) []outOp {
 			o.Len = rapid.SampledFrom([]int{0, 100, 5000, 9000, 70000}).Draw(rt, "burstLen")
 			if o.Len > maxLen {
 				o.Len = maxLen
+			}
+		}
+		if o.Kind == "wstall" {
+			o.Len = rapid.SampledFrom([]int{100, 4096, 5000, 9000, 20000, 70000}).Draw(rt, "stallLen")
+			if o.Len > maxLen {
+				o.Len = maxLen
+			}
+			o.Chunks = []int{rapid.SampledFrom([]int{0, 1, 100, 4096, 4200, 8300, 12500, o.Len / 2, o.Len, o.Len + 5}).Draw(rt, "stallAt")}
+			if i == n-1 && rapid.Bool().Draw(rt, "transportLost") {
+				o.Kind = "wfail"
 			}
 		}
 		if o.Kind == "writer" {
@@ -235,6 +252,49 @@ func doBurst(e *env, lc *libConn, o outOp, payload []byte) error {
 	return nil
 }
 
+// doStall: the peer accepts only o.Chunks[0] more bytes. While the Write is blocked
+// the caller's buffer must look as it was handed over; then the window opens
+// (wstall) or the peer drops the connection (wfail: the Write fails, and the buffer
+// must still be intact).
+func doStall(e *env, lc *libConn, o outOp, payload, keep []byte) (lost bool, err error) {
+	typ := websocket.MessageBinary
+	if o.Text {
+		typ = websocket.MessageText
+	}
+	lc.End.SetInBudget(int64(o.Chunks[0]))
+	var werr error
+	wd := e.Call(func() { werr = lc.C.Write(context.Background(), typ, payload) })
+	synctest.Wait()
+	if !bytes.Equal(payload, keep) {
+		lc.End.SetInBudget(-1)
+		return false, fmt.Errorf("the caller's buffer differs from what was handed over WHILE the Write is held up in the transport after %d bytes (first difference at %d)", o.Chunks[0], firstDiff(payload, keep))
+	}
+	select {
+	case <-wd: // everything fitted
+		lc.End.SetInBudget(-1)
+		return false, werr
+	default:
+	}
+	if o.Kind == "wfail" {
+		lc.End.Close()
+		if !within(wd, 60*time.Second) {
+			return true, fmt.Errorf("Write did not return within 60 s after the peer dropped the connection")
+		}
+		if werr == nil {
+			return true, fmt.Errorf("Write returned nil although the peer dropped the connection after %d bytes", o.Chunks[0])
+		}
+		if !bytes.Equal(payload, keep) {
+			return true, fmt.Errorf("the caller's buffer was left modified by a Write that failed in the transport (first difference at %d)", firstDiff(payload, keep))
+		}
+		return true, nil
+	}
+	lc.End.SetInBudget(-1)
+	if !within(wd, 60*time.Second) {
+		return false, fmt.Errorf("Write did not finish within 60 s after the window opened")
+	}
+	return false, werr
+}
+
 type c02Result struct {
 	CtlAfterFirst int // control frames that directly follow the non-final first frame of a compressed message
 	Rep        *ref.StreamReport
@@ -282,6 +342,7 @@ func runC02(t fataler, mode c03Mode, threshold int, ops []outOp, closeCode int, 
 	var want []sent
 	nPings := 0
 	var opErr string
+	transportLost := false
 	done := e.Call(func() {
 		for i, o := range ops {
 			payload := expand(o.CKind, o.Seed, o.Len)
@@ -289,6 +350,13 @@ func runC02(t fataler, mode c03Mode, threshold int, ops []outOp, closeCode int, 
 			var err error
 			if o.Kind == "burst" {
 				err = doBurst(e, lc, o, payload)
+			} else if o.Kind == "wstall" || o.Kind == "wfail" {
+				var lost bool
+				lost, err = doStall(e, lc, o, payload, keep)
+				if err == nil && lost {
+					transportLost = true
+					return
+				}
 			} else {
 				err = doOutOp(ctx, conn, o, payload)
 			}
@@ -331,12 +399,19 @@ func runC02(t fataler, mode c03Mode, threshold int, ops []outOp, closeCode int, 
 	if opErr != "" {
 		return opErr, res
 	}
+	if transportLost {
+		// the peer is gone: there is no complete stream to compare (what was written before is checked by other programs)
+		return "", res
+	}
 	p.waitEOF(60 * time.Second)
 	wire := lc.End.InRecording()
 	takeover := lc.Agreed.SenderTakeover(mode.Client)
 	res.Deflate = lc.Agreed.Deflate
 	res.Asymmetric = lc.Agreed.Deflate && lc.Agreed.ClientNoCtx != lc.Agreed.ServerNoCtx
-	rep, verr := ref.ValidateStream(wire, ref.StreamOpts{FromClient: mode.Client, Deflate: lc.Agreed.Deflate, Takeover: takeover}, false)
+	// Close with arguments that cannot be sent drops the connection at once; a Pong that
+	// the reader goroutine is writing at that moment (ping storm) may be cut short
+	abrupt := storm && doClose && !(ref.Sendable(closeCode) && len(closeReason) <= 123 || closeCode == 1005)
+	rep, verr := ref.ValidateStream(wire, ref.StreamOpts{FromClient: mode.Client, Deflate: lc.Agreed.Deflate, Takeover: takeover}, abrupt)
 	res.Rep = rep
 	if frames, _, ferr := ref.ParseFrames(wire); ferr == nil {
 		for i := 1; i < len(frames); i++ {
@@ -349,7 +424,7 @@ func runC02(t fataler, mode c03Mode, threshold int, ops []outOp, closeCode int, 
 	if verr != nil {
 		return fmt.Sprintf("emitted stream is not conformant (agreed: %+v, sender takeover=%v): %v", lc.Agreed, takeover, verr), res
 	}
-	if rep.Incomplete {
+	if rep.Incomplete && !abrupt {
 		return "emitted stream ends inside a message", res
 	}
 	if len(rep.Messages) != len(want) {
